@@ -411,6 +411,12 @@ let () =
        | ["crashop"] -> analyse := `Crash
        | ["failop"] -> analyse := `Fail
        | "op" :: rest ->
+           (* the three result-less entry points of the C API are the same calls with the answer dropped:
+              shorebird_update() / shorebird_start_update_thread() = update(None), shorebird_check_for_update() = check(None) *)
+           let (rest, drop_out) = (match rest with
+             | ("update0" | "updatet") :: r -> ("update" :: "-" :: r, true)
+             | "check0" :: r -> ("check" :: "-" :: r, false)
+             | _ -> (rest, false)) in
            let o = parse_op rest in
            (match o with OInit _ -> last_init := Some o | _ -> ());
            if !analyse <> `None then begin
@@ -419,6 +425,7 @@ let () =
            end;
            let acts = if !tracing then world_actions sha sigok zdec (bytes_of_ostring !base_blob) !w o else [] in
            let ((w', x), l) = step sha sigok zdec (bytes_of_ostring !base_blob) !w o in
+           let x = if drop_out then RUnit else x in
            w := w';
            incr idx;
            Hashtbl.replace snaps_pj !idx w'.w_disk.pj;
